@@ -5,6 +5,8 @@ import SlipVerif.Driver.Util
      fmt run <ctrl-hex> <arg>*               → ok <text-hex> | err <class>        (format nil ctrl args…)
      fmt stream <prefix-hex> <ctrl-hex> <arg>* → ok <stream-content-hex> | err …  (format stream ctrl args…)
      fmt princ <arg> | fmt prin1 <arg>       → ok <text-hex> | err <class>
+     fmt runenv <base> <0|1> <ctrl-hex> <arg>* → the same as run under *print-base* / *print-radix*
+     fmt rlist <ctrl-hex> <int>*             → ok <hex of the texts of (format nil ctrl n), one line per integer>
    arguments (prefix notation, one token each, lists announce their length):
      i:<decimal> | s:<hex> | y:<hex> (symbol, printed name) | c:<code> | n | L<k> followed by k arguments -/
 namespace SlipVerif.Driver.Format
@@ -66,13 +68,27 @@ def handle (entry : String) (args : List String) : String :=
                    | _, _ => "bad-request stream result")
        | .error e => "err " ++ e.name)
     | _, _, _ => "bad-request operand"
+  | "runenv", base :: radix :: ctrl :: rest =>
+    -- (let ((*print-base* base) (*print-radix* radix)) (format nil ctrl args…)) ; radix is 0 or 1
+    match base.toNat?, bytesOfHex? ctrl, parseAll (rest.length + 1) rest with
+    | some b, some c, some as => reply (formatTextEnv b (radix == "1") c as)
+    | _, _, _ => "bad-request operand"
+  | "rlist", ctrl :: rest =>
+    -- one call (format nil ctrl n) per integer token; the texts joined by newlines, `!` for a rejected one
+    match bytesOfHex? ctrl with
+    | some c =>
+      (match rest.mapM (fun t => t.toInt?) with
+       | some ns => "ok " ++ hexOfBytes (ns.foldr (fun n acc =>
+           (match formatText c [.int n] with | .ok t => t | .error _ => [33]) ++ 10 :: acc) [])
+       | none => "bad-request operand")
+    | none => "bad-request operand"
   | "princ", rest =>
     match parseAll (rest.length + 1) rest with
-    | some [a] => reply (princ a)
+    | some [a] => reply (princ genTables a)
     | _ => "bad-request operand"
   | "prin1", rest =>
     match parseAll (rest.length + 1) rest with
-    | some [a] => reply (prin1 a)
+    | some [a] => reply (prin1 genTables a)
     | _ => "bad-request operand"
   | _, _ => "bad-request entry"
 
